@@ -106,6 +106,9 @@ func main() {
 			w := writes[bi][n]
 			for k := 1; k <= w; k++ {
 				delays := []int{0, 1}
+				if run.Quick() && k%4 != 0 {
+					delays = []int{0}
+				}
 				for _, d := range delays {
 					sc := b.sc
 					sc.Rules = append(append([]consnet.Rule{}, b.sc.Rules...), consnet.Rule{Kind: "crash", Node: n, K: k, Delay: d})
@@ -125,7 +128,7 @@ func main() {
 			}
 		}
 		// WAL rotation at a record boundary, then crash points after it
-		rot := []int{3, 9, 15}
+		rot := []int{3, 9}
 		if !run.Quick() {
 			rot = nil
 			for k := 1; k <= 30; k++ {
@@ -137,7 +140,7 @@ func main() {
 			w := writes[bi][n]
 			stepK := 1
 			if run.Quick() {
-				stepK = 3
+				stepK = 5
 			}
 			for k := 1; k <= w; k += stepK {
 				sc := b.sc
